@@ -50,7 +50,8 @@ func valuePool() map[string][]*variants.Variant {
 	for _, f := range []float32{0, float32(math.Copysign(0, -1)), 1, -1, 1.5, 0.1, 2, 3, math.MaxFloat32, float32(math.NaN()), float32(math.Inf(1)), float32(math.Inf(-1)), 16777216, 1e10, -2.5} {
 		p["float"] = append(p["float"], vFloat(f))
 	}
-	for _, f := range []float64{0, math.Copysign(0, -1), 1, -1.5, 0.1, 0.5, 2, 3, 9007199254740992, 1e300, math.NaN(), math.Inf(1), math.Inf(-1), 1e19, -1e19, 2.5} {
+	for _, f := range []float64{0, math.Copysign(0, -1), 1, -1.5, 0.1, 0.5, 2, 3, 9007199254740992, 1e300, math.NaN(), math.Inf(1), math.Inf(-1), 1e19, -1e19, 2.5,
+		-0.5, -2.5, -3.5, 0.49999999999999994, 4503599627370497, -4503599627370497, 1.4999999999999998, 2.0000000000000004, -0.9} {
 		p["double"] = append(p["double"], vDouble(f))
 	}
 	for _, s := range []string{"", "a", "ab", "b", "é", "世", "1", "12", "-5", "+7", "007", "1.5", "abc", "true", "Yes", "N", "9007199254740993", "-9223372036854775808", "9223372036854775808", "x y", "0", "1e3", "h\u00e9llo", "\u65e5\u672c\u8a9eabc", "\u20acuro"} {
@@ -61,7 +62,9 @@ func valuePool() map[string][]*variants.Variant {
 	for _, d := range []time.Duration{0, time.Millisecond, -time.Millisecond, 1500 * time.Millisecond, time.Hour, math.MaxInt64, math.MinInt64, 999999, 1} {
 		p["span"] = append(p["span"], vSpan(d))
 	}
-	for _, t := range []time.Time{time.Unix(0, 0), time.Unix(1000000000, 0), time.Unix(-1, 0), time.Unix(1600000000, 500), {}, time.Date(2020, 2, 29, 12, 0, 0, 0, time.UTC), time.Unix(253402300799, 0)} {
+	for _, t := range []time.Time{time.Unix(0, 0), time.Unix(1000000000, 0), time.Unix(-1, 0), time.Unix(1600000000, 500), {}, time.Date(2020, 2, 29, 12, 0, 0, 0, time.UTC), time.Unix(253402300799, 0),
+		// the same instants held in other representations (zone): operators see instants only
+		time.Unix(1000000000, 0).UTC(), time.Unix(1000000000, 0).In(time.FixedZone("E", 3600)), time.Unix(0, 0).In(time.FixedZone("W", -7200))} {
 		p["time"] = append(p["time"], vTime(t))
 	}
 	p["arr"] = []*variants.Variant{vArr(), vArr(vInt(1), vInt(2)), vArr(vStr("a"), vInt(1), vNull()), vArr(vDouble(1.5)), vArr(vArr(vInt(1))), vArr(vStr("12"), vLong(2)),
